@@ -27,6 +27,7 @@ import (
 	"runtime"
 	"sort"
 	"strings"
+	"sync/atomic"
 
 	"github.com/gnolang/gno/tm2/pkg/amino"
 	bft "github.com/gnolang/gno/tm2/pkg/bft/types"
@@ -42,7 +43,8 @@ func init() {
 		Rule: "cases = (part size, block byte length, arrival order, hostile script); part sizes {1,2,3,7,16,64,1024,65536}; block lengths k*ps-1, k*ps, k*ps+1 " +
 			"for k in a per-part-size list (1..9,16,17,31..33 for small part sizes, fewer for large) plus length 1; every permutation of the parts when total <= 6, seeded random " +
 			"permutations above; in every order hostile parts (corrupt bytes / proof / index, out-of-range, duplicates) are injected between legitimate adds " +
-			"(every position for random orders and for a seeded subset of the exhaustive permutations); non-trivial = total >= 2 or at least one hostile part was evaluated; " +
+			"(every position for random orders and for a seeded subset of the exhaustive permutations); AddPart documents no precondition, so negative indices are judged like every other " +
+			"out-of-range index (must be rejected via the return values, set unchanged) although the only in-tree caller runs Part.ValidateBasic first; non-trivial = total >= 2 or at least one hostile part was evaluated; " +
 			"distinct by (ps, len, data digest, order, hostile script digest)",
 		Run: run,
 	})
@@ -249,7 +251,18 @@ func (b *block) base() map[string]any {
 	return map[string]any{"part_size": b.ps, "len": len(b.data), "data_sha256": b.digest, "data_hex_prefix": d, "data_kind": b.kind}
 }
 
+// otherViol counts violations other than the negative-index signature, to stop early on a broken tree
+// without letting that one signature cut the run short.
+var otherViol, negIdxViol atomic.Int64
+
 func (b *block) viol(key string, extra map[string]any, f string, a ...any) {
+	if key != "addpart-panics-on-negative-index" {
+		otherViol.Add(1)
+	} else if negIdxViol.Add(1) > 3 {
+		// vf keeps three witnesses per key; later occurrences are only counted
+		b.c.Violation(key, nil, f, a...)
+		return
+	}
 	w := b.base()
 	for k, v := range extra {
 		w[k] = v
@@ -552,20 +565,25 @@ func (b *block) addHostile(dst *bft.PartSet, h hostile, have []bool, ctxw map[st
 	}
 	switch {
 	case p.Index < 0:
-		// Negative indices are excluded at the wire boundary by Part.ValidateBasic; AddPart has
-		// no documented return value for them. The oracle requires: ValidateBasic rejects, the
-		// set is unchanged (checked above), and the part is never reported as added.
+		// AddPart documents no precondition (it has no doc comment and does not call ValidateBasic); a negative
+		// index is an out-of-range index like any other and must be rejected through the return values. The only
+		// in-tree caller (consensus reactor -> state.addProposalBlockPart) runs Part.ValidateBasic first, which
+		// must reject it as well.
 		if p.ValidateBasic() == nil {
 			b.viol("validate-basic-accepts-negative-index", w(), "Part.ValidateBasic accepted index %d", p.Index)
 		}
-		if pv != nil {
-			c.Count("negative_index_addpart_panics", 1)
-		} else if added {
-			b.viol("accepted-negative-index", w(), "AddPart reported a part with index %d as added", p.Index)
-		} else {
-			c.Count("negative_index_addpart_returns", 1)
-		}
 		c.Count("rejected_out_of_range", 1)
+		switch {
+		case pv != nil:
+			c.Count("negative_index_addpart_panics", 1)
+			var wit map[string]any
+			if negIdxViol.Load() < 3 {
+				wit = w()
+			}
+			b.viol("addpart-panics-on-negative-index", wit, "AddPart(index %d) panicked instead of rejecting the part: %v (set left unchanged)", p.Index, pv)
+		case added || err == nil:
+			b.viol("out-of-range-index-not-rejected", w(), "AddPart(index %d, total %d) = (%v, %v), want (false, error)", p.Index, b.total, added, err)
+		}
 		return
 	case pv != nil:
 		b.viol("panic:AddPart:"+h.kind, w(), "AddPart panicked on a hostile part (%s): %v", h.kind, pv)
@@ -688,7 +706,7 @@ func (b *block) runOrder(order []int, r *rand.Rand, nHostile int, kindBase int) 
 					stored[i] = h.part
 				}
 			}
-			if c.Violations() > 20 {
+			if otherViol.Load() > 20 {
 				return
 			}
 		}
@@ -858,7 +876,7 @@ func run(c *vf.Ctx) {
 	exhHostileEvery := c.N(12, 3) // every n-th exhaustive permutation gets hostile injections
 	workers := runtime.NumCPU()
 	c.Parallel(len(jobs), workers, 1000, func(i int, r *rand.Rand) {
-		if c.Violations() > 20 {
+		if otherViol.Load() > 20 {
 			return
 		}
 		j := jobs[i]
@@ -912,7 +930,6 @@ func run(c *vf.Ctx) {
 
 	c.Sample(map[string]any{"part_size": 3, "len": 10, "note": "4 parts, all 24 orders; hostile kinds: bytes-flip, aunt-swap, relabel-both, index-eq-total, dup-diffbytes, ..."})
 	c.Assume("crypto/sha256 and the RFC-6962-style reference Merkle tree written in the check are the hash reference")
-	c.Assume("negative part indices are excluded by Part.ValidateBasic at the wire boundary; for them the oracle only requires ValidateBasic to fail, the part not to be reported as added and the set to stay unchanged (a panic of AddPart is counted, not judged)")
 	c.RequireCounter("adds_accepted", 1000)
 	c.RequireCounter("orders_exhaustive", 500)
 	c.RequireCounter("orders_random", 100)
